@@ -166,6 +166,16 @@ func (c *Conn) io(kind string, apply func()) error {
 		apply()
 	}
 	f.mu.Unlock()
+	if rv := f.W.rdv; rv != nil && kind != "read" {
+		// all replicas of this operation answer at the same instant; the answer is prepared before the barrier so
+		// that failing and succeeding replicas leave it with the same number of instructions ahead of them
+		var ret error
+		if o != OK {
+			ret = fmt.Errorf("scripted %s error", kind)
+		}
+		rv.wait()
+		return ret
+	}
 	switch o {
 	case OK:
 		return nil
@@ -688,5 +698,22 @@ func (f *Fake) handleReplica(w http.ResponseWriter, r *http.Request) {
 			return
 		}
 		w.WriteHeader(404)
+	}
+}
+
+// rendezvous makes the replicas' answers to one fanned-out operation land
+// together: each arrival spins until all n have arrived (or 20 ms passed).
+type rendezvous struct {
+	n       int32
+	arrived int32
+}
+
+func (r *rendezvous) wait() {
+	atomic.AddInt32(&r.arrived, 1)
+	end := time.Now().Add(20 * time.Millisecond)
+	for atomic.LoadInt32(&r.arrived) < r.n {
+		if time.Now().After(end) {
+			return
+		}
 	}
 }
